@@ -22,6 +22,9 @@ func executeSpec(spec *RunSpec, st *Stats) *Violation {
 		copy(nd, d)
 		spec.Docs[i] = nd
 	}
+	if spec.ProcHist != nil && spec.ProcHist.Needed {
+		return executeHistory(spec, st)
+	}
 	switch spec.Engine {
 	case "wfault":
 		return execWfault(spec, st)
@@ -161,8 +164,9 @@ func minimise(spec *RunSpec, class string, pred func(*RunSpec) bool, maxTried in
 		}
 		// 3b. configuration: switch features off one at a time
 		for _, f := range []func(*Config){
-			func(c *Config) { c.GFM, c.TableAlign = false, "" }, func(c *Config) { c.TableAlign = "" }, func(c *Config) { c.DefList = false },
-			func(c *Config) { c.Footnote = false }, func(c *Config) { c.Typographer = false }, func(c *Config) { c.CJK = "" },
+			func(c *Config) { c.GFM, c.TableAlign, c.LinkifyOpt = false, "", "" }, func(c *Config) { c.TableAlign = "" }, func(c *Config) { c.DefList = false },
+			func(c *Config) { c.Footnote, c.FootnoteOpt = false, "" }, func(c *Config) { c.FootnoteOpt = "" }, func(c *Config) { c.Typographer, c.TypoSubs = false, false },
+			func(c *Config) { c.TypoSubs = false }, func(c *Config) { c.LinkifyOpt = "" }, func(c *Config) { c.CJK = "" },
 			func(c *Config) { c.AutoID = false }, func(c *Config) { c.Attribute = false }, func(c *Config) { c.Unsafe = false },
 			func(c *Config) { c.XHTML = false }, func(c *Config) { c.HardWraps = false }} {
 			c := cur.clone()
@@ -297,40 +301,140 @@ func countSwitches(d []int16) int {
 	return n
 }
 
-// reportViolation minimises, writes the replay file and records the violation.
+// replayCtl turns a worker loop into a history replay: runs from..until of the shard are
+// executed exactly as the worker would, nothing is reported, and the violation of run
+// `until` (if any) is handed to capture.
+type replayCtl struct {
+	from, until int
+	capture     func(*RunSpec, *Violation)
+}
+
+// curProc describes the worker process we are in (nil outside a worker loop).
+var curProc *ProcHistory
+
+// executeHistory re-executes the run sequence recorded in spec.ProcHist.
+func executeHistory(spec *RunSpec, st *Stats) *Violation {
+	ph := spec.ProcHist
+	var got *Violation
+	ctl := &replayCtl{from: ph.FromRun, until: ph.UntilRun, capture: func(s *RunSpec, v *Violation) {
+		if s.Run == ph.UntilRun && got == nil {
+			got = v
+			// show the failing run's own content in the caller's spec
+			spec.Clients, spec.Docs, spec.Cfg = s.Clients, s.Docs, s.Cfg
+		}
+	}}
+	tmp := NewStats()
+	if ph.Pristine {
+		// the failing pair is the spec's own content, not a run of the sequence
+		cfg, doc := spec.Cfg, append([]byte{}, spec.Docs[0]...)
+		ctl.capture = func(*RunSpec, *Violation) {}
+		histWorker(&histParams{prop: spec.Property, verifSeed: spec.VerifSeed, shard: ph.Shard, of: ph.Of, tier: ph.Tier, runs: ph.Runs, ctl: ctl}, tmp)
+		resp, err := pristineCompute(cfg, [][]byte{doc})
+		if err != nil || resp.Errs[0] != "" {
+			if st != nil {
+				st.Trouble = append(st.Trouble, fmt.Sprintf("pristine reference failed: %v", err))
+			}
+			return nil
+		}
+		return pristineVerdict(spec.Property, cfg, doc, resp.Outs[0])
+	}
+	switch spec.Engine {
+	case "hist":
+		histWorker(&histParams{prop: spec.Property, verifSeed: spec.VerifSeed, shard: ph.Shard, of: ph.Of, tier: ph.Tier, runs: ph.Runs, ctl: ctl}, tmp)
+	case "wfault":
+		wfaultWorker(&wfaultParams{prop: spec.Property, verifSeed: spec.VerifSeed, shard: ph.Shard, of: ph.Of, tier: ph.Tier, ctl: ctl}, tmp)
+	case "sched":
+		schedWorker(&schedParams{prop: spec.Property, verifSeed: spec.VerifSeed, shard: ph.Shard, of: ph.Of, tier: ph.Tier, runs: ph.Runs, ctl: ctl}, tmp)
+	default:
+		panic("unknown engine " + spec.Engine)
+	}
+	if st != nil {
+		st.Trouble = append(st.Trouble, tmp.Trouble...)
+	}
+	return got
+}
+
+// reportViolation minimises, makes sure the result reproduces in a FRESH process (the
+// worker process may carry state left behind by earlier runs when the code under test keeps
+// any at package level), writes the replay file and records the violation.
 func reportViolation(spec *RunSpec, v *Violation, st *Stats, replayDir string, doMin bool) {
 	class := v.Class
 	final := spec
 	fv := v
+	detail := ""
+	fresh := func(c *RunSpec) bool {
+		cl, d := subprocessResult(c)
+		if cl == class {
+			detail = d
+			return true
+		}
+		return false
+	}
 	if doMin {
 		pred := func(c *RunSpec) bool {
 			cv := executeSpec(c, nil)
 			return cv != nil && cv.Class == class
 		}
-		if class == "race" {
-			pred = func(c *RunSpec) bool { return subprocessClass(c) == "race" }
+		if class == "race" || class == "deadlock" {
+			pred = fresh
 		}
 		min := minimise(spec, class, pred, 400, 120*time.Second)
-		// re-execute the minimised run to fill in expectation fields; keep the original if
-		// the minimised one does not reproduce (it always should: it was accepted by pred).
-		var mv *Violation
-		if class == "race" {
-			if subprocessClass(min) == "race" {
-				mv = &Violation{Class: "race", Client: v.Client, Op: v.Op, Detail: v.Detail, Race: v.Race}
+		ok := fresh(min)
+		if !ok && class != "race" && class != "deadlock" && fresh(spec) {
+			// shrinking inside this process was misled by state earlier runs left behind:
+			// shrink again with every candidate executed in a fresh process
+			min = minimise(spec, class, fresh, 200, 120*time.Second)
+			ok = fresh(min)
+		}
+		if ok {
+			final = min
+			if class == "race" || class == "deadlock" {
+				fv = &Violation{Class: class, Client: v.Client, Op: v.Op, Detail: v.Detail, Race: v.Race}
+			} else if mv := executeSpec(min.clone(), nil); mv != nil && mv.Class == class {
+				fv = mv
+			} else {
+				fv = &Violation{Class: class, Client: -1, Op: -1, Detail: detail}
 			}
-		} else {
-			mv = executeSpec(min, nil)
+		} else if curProc != nil && !fresh(spec) {
+			// the run alone does not reproduce in a fresh process: it needs what this process
+			// executed before it. Record the shortest suffix of the worker's run sequence that
+			// does reproduce there.
+			h := spec.clone()
+			h.Decisions = nil
+			found := false
+			for k := 1; k <= 1024 && !found; k *= 4 {
+				from := spec.Run - k*curProc.Of
+				if from < curProc.Shard {
+					from = curProc.Shard
+				}
+				ph := *curProc
+				ph.FromRun, ph.UntilRun, ph.Needed = from, spec.Run, true
+				h.ProcHist = &ph
+				found = fresh(h)
+				if from == curProc.Shard {
+					break
+				}
+			}
+			if found {
+				final = h
+			} else {
+				spec.Note = "observed in the worker process but reproduced neither alone nor with the worker's run sequence in a fresh process"
+			}
 		}
-		if mv != nil && mv.Class == class {
-			final, fv = min, mv
-		}
+	}
+	if detail != "" && (fv == v || fv.Detail == "") {
+		fv = &Violation{Class: class, Client: fv.Client, Op: fv.Op, Want: fv.Want, Got: fv.Got, Detail: fv.Detail, Race: fv.Race}
 	}
 	p, err := writeSpec(final, replayDir, fv)
 	if err != nil {
 		st.Trouble = append(st.Trouble, "cannot write replay file: "+err.Error())
 		return
 	}
-	st.Violations = append(st.Violations, VioReport{Property: spec.Property, Class: class, Replay: p, Detail: vioSummary(final, fv)})
+	sum := vioSummary(final, fv)
+	if final.ProcHist != nil && final.ProcHist.Needed {
+		sum += fmt.Sprintf(" | needs process history: runs %d..%d of shard %d/%d re-executed in a fresh process", final.ProcHist.FromRun, final.ProcHist.UntilRun, final.ProcHist.Shard, final.ProcHist.Of)
+	}
+	st.Violations = append(st.Violations, VioReport{Property: spec.Property, Class: class, Replay: p, Detail: sum})
 }
 
 func vioSummary(spec *RunSpec, v *Violation) string {
